@@ -291,6 +291,15 @@ INNER = Retort(recipe=[loader(int, f1, Chain.LAST)], strict_coercion=False)
 OUTER = Retort(recipe=[bound(int, INNER), loader(int, f2)], strict_coercion=True)
 L_OUT_INT = OUTER.get_loader(int)                     # served by INNER with INNER's recipe and options (lax)
 L_OUT_LIST = OUTER.get_loader(List[int])              # List handled by OUTER, element by INNER
+# a retort that already served inside a recipe, then cloned with extend()/replace(), then placed in a recipe again
+INNER0 = Retort(recipe=[loader(int, f1, Chain.LAST)])
+OUT0 = Retort(recipe=[bound(int, INNER0)])
+L_OUT0 = OUT0.get_loader(int)
+INNER1 = INNER0.extend(recipe=[loader(int, f3, Chain.LAST)])
+L_OUT1 = Retort(recipe=[bound(int, INNER1)]).get_loader(int)          # f3(f1(x)): the clone's own recipe
+INNER2 = INNER0.replace(strict_coercion=False)
+L_OUT2 = Retort(recipe=[bound(int, INNER2)]).get_loader(int)          # lax: the clone's own options
+L_OUT0_AGAIN = Retort(recipe=[bound(int, INNER0)]).get_loader(int)    # the original is unchanged
 ''')
     mf.ob("instance_before_class", "x: int", "return L_INST(x) == f1(f2(x)) and L_SUB(x) == f1(f3(f2(x)))", timeout=30,
           family="facade", bounds="x any int")
@@ -311,6 +320,15 @@ L_OUT_LIST = OUTER.get_loader(List[int])              # List handled by OUTER, e
           "return L_OUT_INT(x) == f1(x) and ok == exp_ok and (not ok or r == exp) and ok2 == exp_ok and (not ok2 or r2 == [f1(x), exp])",
           pre=["0 <= n <= 2", "0 <= c0 < 9", "0 <= c1 < 9"], timeout=60, family="facade",
           bounds="x any int; s str len<=2 over '01-+_ a.9': the inner retort's lax option decides, not the outer strict one")
+    mf.ob("clone_in_recipe", "x: int, n: int, c0: int, c1: int",
+          "s = sel_atom(4, n, c0, c1, 0, ALPHA)\n"
+          "ok, r = run(L_OUT2, s)\n"
+          "exp_ok, exp = run(lambda v: f1(int(v)), s)\n"
+          "strict_ok, _ = run(L_OUT0_AGAIN, s)\n"
+          "return (L_OUT0(x) == f1(x) and L_OUT1(x) == f3(f1(x)) and L_OUT0_AGAIN(x) == f1(x) and L_OUT2(x) == f1(x)\n"
+          "        and ok == exp_ok and (not ok or r == exp) and not strict_ok)",
+          pre=["0 <= n <= 2", "0 <= c0 < 9", "0 <= c1 < 9"], timeout=60, family="facade",
+          bounds="retort used in a recipe, then extend()/replace() clones used in recipes: each serves from its OWN recipe and options; x any int, s str len<=2")
     return Plan("C09", [m, mb, me, mf],
                 assumptions=["handlers/checkers are stubs with symbolic truth values and behaviours (documented contract: provide, decline with CannotProvide, terminal CannotProvide, provide_from_next)",
                              "step obligation relies on the invariant that the pending combo holds the not-yet-emitted exact-origin items with distinct origins"],
